@@ -219,8 +219,11 @@ Definition allowed_socket_sites : list ((string * string * string * Z) * sock_cl
   (("src/transports/ice/mod.rs", "IceTransportRunner::run_keepalive_tick", "send_to", 2), StunAgent);
   (("src/transports/ice/mod.rs", "handle_stun_request", "send_to", 1), StunAgent);
   (("src/transports/ice/mod.rs", "perform_binding_check", "send_to", 1), StunAgent);
+  (("src/transports/ice/mod.rs", "perform_binding_check", "write_all", 1), StunAgent);
+  (("src/transports/ice/mod.rs", "tcp_write_all", "try_write", 1), SocketWrapper);
   (("src/transports/ice/mod.rs", "perform_tcp_binding_check", "tcp_write_all", 2), StunAgent);
   (("src/transports/ice/turn.rs", "TurnClient::send", "send_to", 1), TurnClient);
+  (("src/transports/ice/turn.rs", "TurnClient::send", "write_all", 1), TurnClient);
   (("src/transports/ice/turn.rs", "TurnClient::try_send_sync", "try_send_to", 1), TurnClient);
   (("src/transports/udptl.rs", "UdtlTransport::send", "send_to", 1), UdptlOwnSocket)].
 
